@@ -31,6 +31,7 @@ func runC11(c *core.Ctx) {
 	ruleCopierErrors(c)
 	ruleCopierNoMutation(c)
 	ruleNilEntryDiscipline(c)
+	rulePublishedNotRecycled(c, "C11-R9", "pdf")
 	ruleInStreamGuards(c, "C11-R8") // copied streams: dictionary strings are encrypted under the target object's key
 }
 
